@@ -132,12 +132,94 @@ Fixpoint lookup_n (o : list (N * str)) (n : N) : str :=
   | (k, v) :: r => if k =? n then v else lookup_n r n
   end.
 
+(* ---- the matchers cache under concurrent lookups ------------------------------------- *)
+
+(* LruMatchersCache.GetOrSet: sf.Do(sfkey, func { if item, ok := cache.Get(lrukey) { return item };
+   item := newItem(); cache.Add(lrukey, item); return item }). singleflight: a call whose key is
+   in flight waits for the leader and gets the leader's result. A lookup is an item (the matcher
+   to convert); the conversion of an item yields that item. Events: a lookup is issued (FBegin),
+   the conversion of a leading lookup returns (FFinish). [sfk]/[lruk] are the two key functions;
+   in the code both are cacheKey(m) (source fact getOrSetKeys). Eviction is not modelled. *)
+Inductive fev := FBegin (i : nat) | FFinish (i : nat).
+
+Inductive lstate := LIdle | LLeader | LWait (j : nat) | LDone (r : matcher).
+
+Record fstate := mkF { f_lru : list (str * matcher); f_fl : list (str * nat); f_ls : nat -> lstate }.
+
+Definition finit : fstate := mkF [] [] (fun _ => LIdle).
+
+Fixpoint assoc_s {A} (k : str) (l : list (str * A)) : option A :=
+  match l with
+  | [] => None
+  | (k', v) :: r => if str_eqb k' k then Some v else assoc_s k r
+  end.
+
+Definition upd_ls (f : nat -> lstate) (i : nat) (v : lstate) : nat -> lstate :=
+  fun x => if Nat.eqb x i then v else f x.
+
+Section Flight.
+  Variables sfk lruk : matcher -> str.
+  Variable items : list matcher.
+
+  Definition fstep (st : fstate) (e : fev) : fstate :=
+    match e with
+    | FBegin i =>
+      match f_ls st i, nth_error items i with
+      | LIdle, Some m =>
+        match assoc_s (sfk m) (f_fl st) with
+        | Some j => mkF (f_lru st) (f_fl st) (upd_ls (f_ls st) i (LWait j))           (* waits for the call in flight *)
+        | None =>
+          match assoc_s (lruk m) (f_lru st) with
+          | Some r => mkF (f_lru st) (f_fl st) (upd_ls (f_ls st) i (LDone r))          (* cache hit *)
+          | None => mkF (f_lru st) ((sfk m, i) :: f_fl st) (upd_ls (f_ls st) i LLeader) (* converts *)
+          end
+        end
+      | _, _ => st
+      end
+    | FFinish i =>
+      match f_ls st i, nth_error items i with
+      | LLeader, Some m =>
+        mkF ((lruk m, m) :: f_lru st)
+            (filter (fun e : str * nat => negb (Nat.eqb (snd e) i)) (f_fl st))
+            (fun x => if Nat.eqb x i then LDone m
+                      else match f_ls st x with
+                           | LWait j => if Nat.eqb j i then LDone m else LWait j
+                           | s => s
+                           end)
+      | _, _ => st
+      end
+    end.
+
+  Definition frun (evs : list fev) : fstate := fold_left fstep evs finit.
+End Flight.
+
+Definition lstate_code (s : lstate) : N := match s with LIdle => 0 | LLeader => 1 | LWait _ => 2 | LDone _ => 3 end.
+
+(* an injective, prefix-free stand-in for strconv.Quote (a double quote, the length in unary, a 0, the text) *)
+Definition uquote_m (s : str) : str := dquote :: repeat 1 (length s) ++ 0 :: s.
+Definition flight_key (m : matcher) : str := matcher_cache_key uquote_m true m.
+
+Fixpoint codes_go (sfk lruk : matcher -> str) (items : list matcher) (st : fstate) (evs : list fev) : list N :=
+  match evs with
+  | [] => []
+  | e :: r => let st' := fstep sfk lruk items st e in
+              lstate_code (f_ls st' (match e with FBegin i | FFinish i => i end)) :: codes_go sfk lruk items st' r
+  end.
+Definition flight_codes sfk lruk items evs : list N := codes_go sfk lruk items finit evs.
+
+Definition flight_results sfk lruk (items : list matcher) (evs : list fev) : list (option matcher) :=
+  map (fun i => match f_ls (frun sfk lruk items evs) i with LDone r => Some r | _ => None end) (seq 0 (length items)).
+
 (* ---- cases --------------------------------------------------------------------- *)
 
 Inductive case :=
 (* two items, the key strings the real code computed for them, and the values of
    blake2b+base64, strconv.Quote and strconv.FormatUint on the strings involved *)
-| CPair (i1 i2 : item) (k1 k2 : str) (oH oQ : list (str * str)) (oD : list (N * str)).
+| CPair (i1 i2 : item) (k1 k2 : str) (oH oQ : list (str * str)) (oD : list (N * str))
+(* concurrent lookups on one real LruMatchersCache: the items; the schedule (a conversion parks
+   inside newItem until its FFinish); after each event the state of the lookup it concerns
+   (1 converting, 2 waiting for a call in flight, 3 returned); the matcher each lookup returned *)
+| CFlight (items : list matcher) (evs : list fev) (codes : list N) (results : list (option matcher)).
 
 Definition model_key (oH oQ : list (str * str)) (oD : list (N * str)) (i : item) : str :=
   key_of (lookup_s oH) (lookup_s oQ) (lookup_n oD) true i.
@@ -145,6 +227,12 @@ Definition model_key (oH oQ : list (str * str)) (oD : list (N * str)) (i : item)
 Definition corr_ok (c : case) : bool :=
   match c with
   | CPair i1 i2 k1 k2 oH oQ oD => str_eqb (model_key oH oQ oD i1) k1 && str_eqb (model_key oH oQ oD i2) k2
+  | CFlight items evs codes results =>
+    (* any injective key gives the same behaviour (theorem C13_inflight_own_item): the model is run with
+       the key of the fixed cacheKey under an injective stand-in for strconv.Quote *)
+    let k := flight_key in
+    list_eqb N.eqb (flight_codes k k items evs) codes &&
+    list_eqb (option_eqb matcher_eqb) (flight_results k k items evs) results
   end.
 
 (* different items of one cache never share a key *)
@@ -152,4 +240,10 @@ Definition pred_ok (c : case) : bool :=
   match c with
   | CPair i1 i2 k1 k2 _ _ _ =>
     if same_cache i1 i2 && negb (item_eqb i1 i2) then negb (str_eqb k1 k2) else true
+  | CFlight items _ _ results =>
+    (* every lookup that returned got the matcher of ITS item *)
+    list_eqb (option_eqb matcher_eqb) results
+             (map (fun p : matcher * option matcher => match snd p with Some _ => Some (fst p) | None => None end)
+                  (combine items results))
+    && Nat.eqb (length results) (length items)
   end.
